@@ -125,9 +125,12 @@ def run(REG, tier, seed, jobs):
     parts.append({'name': 'C20/bounded/SemVer.__init__(str)==SemVer-grammar', 'function': 'SemVer.__init__', 'bound': f'all strings of <= {n} characters over {alpha!r} that the SemVer 2.0.0 grammar (with partial versions) accepts',
                   'evaluations': ev, 'distinct_nontrivial': nt, 'rule': 'non-trivial: grammatical SemVer strings (others are skipped)', 'exhaustive': True, 'failures': fails})
     vs = [s for s in strings(['0', '1', '10', 'a', '-', '.'], 6 if tier == 'quick' else 7) if spec_semver(s) is not None]
-    pairs = list(itertools.product(vs, vs))
-    if len(pairs) > (60000 if tier == 'quick' else 600000):
-        pairs = rnd.sample(pairs, 60000 if tier == 'quick' else 600000)
+    lim = 60000 if tier == 'quick' else 600000
+    if len(vs) * len(vs) > lim:
+        # sampled without materialising the product (hundreds of millions of pairs in the thorough tier)
+        pairs = [(vs[rnd.randrange(len(vs))], vs[rnd.randrange(len(vs))]) for _ in range(lim)]
+    else:
+        pairs = list(itertools.product(vs, vs))
     ev, nt, fails = pmap(_order_chunk, chunked(iter(pairs), 5000), jobs)
     parts.append({'name': 'C20/bounded/SemVer-order==section-11', 'function': 'SemVer.__cmp', 'bound': f'{len(pairs)} pairs from {len(vs)} grammatical versions built from fragments 0,1,10,a,-,.',
                   'evaluations': ev, 'distinct_nontrivial': nt, 'rule': 'non-trivial: the two versions differ in precedence', 'exhaustive': False, 'failures': fails})
